@@ -350,7 +350,12 @@ func genLineSoup(r *core.Rand) string {
 		case 2:
 			b.WriteString("# comment\n")
 		case 3:
-			b.WriteString(" " + genLineText(r) + "\n")
+			if r.Chance(1, 4) {
+				// white space beyond blank and tab at the end of a continuation line (and of " .")
+				b.WriteString(" " + r.Pick([]string{"text", ".", "", "a b"}) + r.Pick([]string{"\u00a0", "\u0085", "\u2003", "\u2028", "\u3000", "\v", "\f", " \u00a0 ", "\u00a0x"}) + r.Pick([]string{"\n", "\r\n"}))
+			} else {
+				b.WriteString(" " + genLineText(r) + "\n")
+			}
 		case 4:
 			b.WriteString("\t" + genLineText(r) + r.Pick([]string{"\n", " \n", "\r\n"}))
 		case 5:
